@@ -259,6 +259,20 @@ def run(ck):
                     txt = (f'Lemma w_{lid} : Rabs (path_prob (fun j => nth j {zdefs} 0) {coq_gpath(paths[l])} - {coq_R(Wfull[r, l])}) <= {coq_R(tol)}.\n'
                            f'Proof. cbv [path_prob fold_right gate glogit sigmoid fst snd nth]. interval with (i_prec 50). Qed.')
                     lemmas.append((lid, txt)); lmeta[lid] = dict(desc, row=r, leaf=l); lid += 1
+        # the temperature is a public attribute: re-assign it on the SAME model (tree cache already built) and query again
+        T2 = float([0.02, 0.7, 5.0][ti % 3]) if T != 0.7 else 2.0
+        m.split_temperature = T2
+        W2 = np.asarray(m.predict(Xt), dtype=np.float64)
+        ck.case(dict(desc, kind='weights-after-reassigning-T', T2=T2), nontrivial=nl >= 3); ck.count('temperature re-assigned on the same model')
+        for r in range(nrows):
+            ws2, _ = mp_weights(tree, Xb[r], T2)
+            for l in range(nl):
+                if abs(float(ws2[l]) - W2[r, l]) > 5e-6 + 2e-5 * float(ws2[l]):
+                    ck.violation(f'after re-assigning split_temperature {T} -> {T2} on the same model, the soft weight of leaf {l} for row {Xb[r].tolist()} is {W2[r, l]}, '
+                                 f'the documented weights at {T2} give {float(ws2[l])}', dict(desc, T2=T2, row=r, leaf=l, got=float(W2[r, l]), want=float(ws2[l])),
+                                 key=json.dumps(dict(site='weights-reassigned-T')))
+                    break
+        m.split_temperature = T
         # (c) truncation
         for (keep, cap) in [(0.99, 12), (float(rng.choice([0.3, 0.5, 0.8, 0.9, 1.0])), int(rng.integers(1, nl + 2))), (0.5, 1), (1.0, 1)]:
             for lf in leaves:
